@@ -5,7 +5,7 @@
 From mathcomp Require Import ssreflect ssrfun ssrbool eqtype ssrnat seq fintype bigop order ssralg ssrnum matrix.
 From Coq Require Import BinNums BinInt.
 Require NV.C20.Model NV.C20.ProofsList.
-Require Import NV.C20.ProofsMx.
+Require Import NV.C20.ProofsMx NV.C20.Bridge.
 Import GRing.Theory Order.TTheory Num.Theory.
 Local Open Scope ring_scope.
 
@@ -131,6 +131,62 @@ Theorem C20_model_map_certified :
     List.Forall2 QArith_base.Qeq (Model.mat_vec (Model.post_cov_inv n R Ninv) x) (Model.info_source n R Ninv d) /\
     List.Forall2 (fun a b => QArith_base.Qle (Qabs.Qabs (QArith_base.Qminus a b)) tol) x impl.
 Proof. exact: ProofsList.corr_map_sound. Qed.
+
+(* Bridge between the executable list/Q model and the matrix theorems above (Bridge.v): Coq's
+   rationals are embedded into an arbitrary MathComp field of characteristic 0 (`q2F`), row lists
+   are read as matrices (`mxQ`, `cvQ`), and the model's operations are the matrix operations:
+   matrix-vector product, the exact certificate (normal-equation residual) ... *)
+Theorem C20_bridge_mat_vec :
+  forall (F : numFieldType) (m n : nat) (A : list (list QArith_base.Q)) (x : list QArith_base.Q),
+    wfm m n A -> cvQ F m (Model.mat_vec A x) = mxQ F m n A *m cvQ F n x.
+Proof. move=> F m n A x; exact: cvQ_mat_vec. Qed.
+
+Theorem C20_bridge_certificate :
+  forall (F : numFieldType) (m n : nat) (A : list (list QArith_base.Q)) (b x : list QArith_base.Q),
+    wfm m n A -> Model.is_solution A b x = true -> mxQ F m n A *m cvQ F n x = cvQ F m b.
+Proof. move=> F m n A b x; exact: is_solution_mx. Qed.
+
+(* ... the Wiener-filter operators of the model are `curv` and the information source ... *)
+Theorem C20_bridge_operators :
+  forall (F : numFieldType) (m n : nat) (R Ninv : list (list QArith_base.Q)) (d : list QArith_base.Q),
+    wfm m n R -> wfm m m Ninv ->
+    mxQ F n n (Model.post_cov_inv n R Ninv) = (mxQ F m n R)^T *m mxQ F m m Ninv *m mxQ F m n R + 1%:M /\
+    cvQ F n (Model.info_source n R Ninv d) = (mxQ F m n R)^T *m (mxQ F m m Ninv *m cvQ F m d).
+Proof. move=> F m n R Ninv d wR wN; split; [exact: mxQ_post_cov_inv | exact: cvQ_info_source]. Qed.
+
+(* ... hence a `true` correspondence term of the signal-space, data-space and Newton (MAP/MGVI)
+   routes says that the model's exact rational vector IS `mean_signal` -- the object of
+   C20_branches_agree, C20_map_is_mean, C20_posterior_mean_and_covariance -- for the matrices read
+   off the lists (N := inverse of the list `Ninv`). *)
+Theorem C20_model_signal_is_mean :
+  forall (F : numFieldType) (m n : nat) tol R Ninv d impl,
+    wfm m n R -> wfm m m Ninv ->
+    let Rm := mxQ F m n R in let Ni := mxQ F m m Ninv in
+    Ni \in unitmx -> curv Rm Rm^T (invmx Ni) \in unitmx ->
+    Model.corr_signal tol n R Ninv d impl = true ->
+    exists x, Model.wf_signal n R Ninv d = Some x /\
+              cvQ F n x = mean_signal Rm Rm^T (invmx Ni) (cvQ F m d).
+Proof. move=> F m n tol R Ninv d impl; exact: model_signal_is_mean. Qed.
+
+Theorem C20_model_data_is_mean :
+  forall (F : numFieldType) (m n : nat) tol R N Ninv d impl,
+    wfm m n R -> wfm m m Ninv ->
+    let Rm := mxQ F m n R in let Ni := mxQ F m m Ninv in
+    Ni \in unitmx -> curv Rm Rm^T (invmx Ni) \in unitmx ->
+    Model.corr_data tol n R N Ninv d impl = true ->
+    exists x, Model.wf_data n R N d = Some x /\
+              cvQ F n x = mean_signal Rm Rm^T (invmx Ni) (cvQ F m d).
+Proof. move=> F m n tol R N Ninv d impl; exact: model_data_is_mean. Qed.
+
+Theorem C20_model_map_is_mean :
+  forall (F : numFieldType) (m n : nat) tol R Ninv d s0 impl,
+    wfm m n R -> wfm m m Ninv ->
+    let Rm := mxQ F m n R in let Ni := mxQ F m m Ninv in
+    Ni \in unitmx -> curv Rm Rm^T (invmx Ni) \in unitmx ->
+    Model.corr_map tol n R Ninv d s0 impl = true ->
+    exists x, Model.newton_step n R Ninv d s0 = Some x /\
+              cvQ F n x = mean_signal Rm Rm^T (invmx Ni) (cvQ F m d).
+Proof. move=> F m n tol R Ninv d s0 impl; exact: model_map_is_mean. Qed.
 
 (* Non-vacuity: a rank-deficient response (row 3 = row 1, 4 data / 3 signal pixels): both routes of
    the model are defined, certified and equal. *)
